@@ -14,13 +14,13 @@ PROP = {
             "communities / 80 large communities, unknown attributes; the attributes BGPPath.Length() under-counts in 30% of "
             "the cases) x 1-3000 prefixes in 1-5 runs of one prefix length each x session kind (IPv4, IPv4 multiprotocol, "
             "IPv6 multiprotocol; add-path, 2/4-octet ASN, iBGP/eBGP, RR client); a case is non-trivial when the prefixes "
-            "were split into at least two UPDATEs; distinct = distinct inputs",
+            "were split into at least two UPDATEs; every fourth case runs the REAL sender goroutine against a connection whose Write blocks until released and queues further prefixes of the path while it is blocked (non-trivial when it did); distinct = distinct inputs",
     "trusted_base": [
         "extraction (ExtrOcamlBasic only) + ocaml/common/conv.ml + ocaml/c18/c18_run.ml",
         "Go harness harness/cmd/c18 + harness/usx (generator, capture writer, reference UPDATE decoder written from "
         "RFC 4271/4760/7911, hand-computed expected attribute values, spec oracle) and the hook "
         "protocols/bgp/server/verif_hooks_c10.go (constructs the UpdateSender through newUpdateSender; Dequeue repeats the "
-        "locked part of one iteration of sender(): _getUpdateInformation + delete)",
+        "locked part of one iteration of sender(): _getUpdateInformation + delete; the real loop is covered by the real-goroutine stream, harness/usx/real.go)",
         "modelled, not verified: the byte counts of the attribute/NLRI/UPDATE serializers are transcribed into "
         "Model.UpdateSender (enc_attrs, mp_attr, msg_total) and tied to the code by comparing the length of every written "
         "message; sha256 as identity on the hashed tuple",
